@@ -93,8 +93,18 @@ type BinResult struct {
 	Err    error
 }
 
-// RunBin runs the real binary.
+// RunBin runs the real binary. An exit status other than 0 together with no output at all is not something klog does
+// (every failure prints a message): on a loaded machine it is the trace of a process that could not run properly, and the
+// run is repeated (up to twice) before the result is handed on.
 func RunBin(env BinEnv, args ...string) BinResult {
+	res := runBinOnce(env, args...)
+	for try := 0; try < 2 && res.Err == nil && res.Code != 0 && res.Stdout == "" && res.Stderr == "" && env.StdoutPath == ""; try++ {
+		res = runBinOnce(env, args...)
+	}
+	return res
+}
+
+func runBinOnce(env BinEnv, args ...string) BinResult {
 	cmd := exec.Command(env.Bin, args...)
 	cmd.Env = []string{"KLOG_CONFIG_HOME=" + env.ConfigDir, "HOME=" + env.ConfigDir, "PATH=/usr/bin:/bin", "GOTRACEBACK=all"}
 	if env.Clock != nil {
